@@ -772,7 +772,12 @@ func c05HungQueryLog(rep *verifkit.Report) {
 			okGets++
 		}
 	}
+	// (A stall is when serving stops, not when a loaded machine answers late:
+	// most probes lost, or no admin GET answered.)
 	if served < 380 || okProbes < 20 || okGets < 3 {
+		rep.Class("progress_probes_lost_or_late:hung-querylog")
+	}
+	if served < 40 || okProbes <= 2 || okGets == 0 {
 		dump := in.Dump()
 		summary, lockers := sysSummarizeDump(dump)
 		defer in.Kill()
@@ -948,7 +953,10 @@ func c05Background(rep *verifkit.Report, k int) {
 		if st, _, e := in.APITimeout("POST", "/control/filtering/set_rules", map[string]any{"rules": []string{"||bgprobe.verif.test^"}}, 20*time.Second); e == nil && st == 200 {
 			okSave = true
 		}
-		if okProbes < 20 || okGets < 3 || !okSave {
+		if okProbes < 20 || okGets < 3 {
+			rep.Class("progress_probes_lost_or_late:background-refresh")
+		}
+		if okProbes <= 2 || okGets == 0 || !okSave {
 			dump := in.Dump()
 			summary, lockers := sysSummarizeDump(dump)
 			rep.Violate("stall-after-quiescence:background-refresh", fmt.Sprintf("after admin operations during the periodic list refresh only %d/20 DNS probes and %d/3 admin GETs succeeded, rule change accepted=%v", okProbes, okGets, okSave),
@@ -1179,6 +1187,9 @@ func c05Round(rep *verifkit.Report, round int, loadDur time.Duration) {
 		rep.EventN("progress_probe_dns_ok", okProbes)
 		rep.EventN("progress_probe_http_ok", okGets)
 		if okProbes < 20 || okGets < 5 {
+			rep.Class("progress_probes_lost_or_late:main-workload")
+		}
+		if okProbes <= 2 || okGets == 0 {
 			dump := in.Dump()
 			summary, lockers := sysSummarizeDump(dump)
 			rep.Violate("stall-after-quiescence", fmt.Sprintf("after the workload stopped only %d/20 DNS probes and %d/5 admin GETs succeeded within 30 s", okProbes, okGets),
